@@ -121,30 +121,52 @@ def check_strictness(ctx, prog, I):
                     ctx.finding('C01.4', fn, 'push:%s-by-%s' % (v, w),
                                 'a pushed %s can%s be followed by a %s stepping in; official rule: %s'
                                 % (v, '' if got else 'not', w, 'allowed' if want else 'not allowed (must be strictly stronger)'))
-    fn = prog.one('GameState::move_can_be_counted_as_pull')
-    if ctx.anchor('fn move_can_be_counted_as_pull', fn is not None):
-        src = G.step(sq, 'Down')  # enemy piece below d4 moving Up into d4
+    # pull recognition, observed through the public transition: with PossiblePull(sq, mine) pending, an enemy piece of type
+    # `their` stepping from below into sq completes the pull (status None) exactly when mine > their; otherwise the step is
+    # a push that must be completed
+    fn = prog.one('GameState::take_action')
+    if ctx.anchor('fn GameState::take_action', fn is not None):
+        from .rules_c03 import take, move_action, play_of, fld
+        src = G.step(sq, 'Down')
+        none_v = inputs.enum_variant(prog, 'engine::PushPullState', 'None')
+        mcp_v = inputs.enum_variant(prog, 'engine::PushPullState', 'MustCompletePush')
         for mine in G.STRENGTH:
             if mine == 'Rabbit':
                 continue
             for their in G.STRENGTH:
-                st = State({})
                 gsv = inputs.play_state(prog, True, 1, 'PossiblePull', sq, mine)
-                pbv = board_only(prog, [their])
-                # the moved piece at src is of type `their`: force the type bit so piece_type_at_bit is decided
-                pbv = force_type(prog, pbv, their, src)
+                pbv = constant_board(prog, {src: (their, False)})
                 gsv = with_board(prog, gsv, pbv)
-                gs = inputs.ref_to(I, st, 'gs', gsv)
-                pb = inputs.ref_to(I, st, 'pb', pbv)
-                d = inputs.ref_to(I, st, 'd', inputs.direction(prog, 'Up'))
-                r, _ = I.call_fn(fn, [gs, BV.const(1 << src, 64), d, pb], st)
-                got = r.bits[0] is not C0
+                try:
+                    r = take(I, prog, gsv, move_action(prog, src, 'Up'))
+                except Undecided as e:
+                    ctx.finding('UNDECIDED', fn, 'pull-strictness', 'cannot decide the status after a pull step: %s' % e)
+                    continue
+                pl = play_of(prog, r)
+                stv = fld(prog, 'engine::PlayPhase', pl, 'push_pull_state') if pl is not None else None
+                got = None
+                if isinstance(stv, Enum):
+                    got = True if stv.var == none_v else (False if stv.var == mcp_v else None)
                 want = stronger(mine, their)
                 ctx.ob('%s pulls %s accepted=%s' % (mine, their, got), got == want, sample=(mine == their == 'Cat'))
                 if got != want:
                     ctx.finding('C01.4', fn, 'pull:%s-by-%s' % (their, mine),
-                                'a %s that just stepped away can%s pull a %s; official rule: %s'
-                                % (mine, '' if got else 'not', their, 'allowed' if want else 'not allowed'))
+                                'a %s that just stepped away can%s pull a %s (status afterwards: %r); official rule: %s'
+                                % (mine, '' if got else 'not', their, stv, 'allowed' if want else 'not allowed'))
+
+
+def constant_board(prog, pieces):
+    """A fully known board: {square: (type name, is_gold)}."""
+    order = inputs.pbs_field_order(prog)
+    vals = {}
+    for n in order:
+        vals[inputs.SHORT[n]] = 0
+    for sqi, (t, gold) in pieces.items():
+        vals['all'] |= 1 << sqi
+        if gold:
+            vals['p1'] |= 1 << sqi
+        vals[TYPE_VAR[t]] |= 1 << sqi
+    return Struct('engine::PieceBoardState', [BV.const(vals[inputs.SHORT[n]], 64) for n in order])
 
 
 def force_type(prog, pbv, tname, sqi):
